@@ -136,6 +136,7 @@ static int apply_violation(argset *a, const char *v)
     else if (!strcmp(v, "equed.bad")) { a->opt.fact = FACTORED; a->equed = (equed_t)9; }
     else if (!strcmp(v, "R.nonpos")) { a->opt.fact = FACTORED; a->equed = ROW; rs_set(a->vt, a->R, a->n / 2, -1.0); }
     else if (!strcmp(v, "C.nonpos")) { a->opt.fact = FACTORED; a->equed = COL; rs_set(a->vt, a->C, a->n / 2, 0.0); }
+    else if (!strcmp(v, "RC.nonpos")) { a->opt.fact = FACTORED; a->equed = BOTH; rs_set(a->vt, a->R, a->n / 2, -2.0); rs_set(a->vt, a->C, 0, -1.0); }
     else if (!strcmp(v, "trans.bad")) a->trans = (trans_t)7;
     else if (!strcmp(v, "L.nonsquare")) a->L.nrow = a->n + 1;
     else if (!strcmp(v, "L.stype")) a->L.Stype = SLU_NC;
